@@ -166,6 +166,28 @@ theorem setRoleManagerWith_eq_fresh (e : Enforcer) (hb : e.autoBuild = true) (r 
     e.setRoleManagerWith r = e.setRoleManager :=
   setRoleManagerWith_content_irrelevant e hb r (RoleMgr.new 10) (by simp [hm, RoleMgr.new]) hreg
 
+/-- with automatic link building **off**, `set_role_manager` installs the manager as handed over (its links are the caller's
+business until `build_role_links`) and registers the role functions of every role definition all the same - so that
+decisions, role queries and the later rebuild all use that one manager -/
+theorem setRoleManagerWith_manual (e : Enforcer) (hb : e.autoBuild = false) (r : RoleMgr String) (gf : List (String × Nat))
+    (hgf : registerG [] e.store.g = some gf) :
+    (e.setRoleManagerWith r).1.rm = r ∧ (e.setRoleManagerWith r).2 = .unit ∧
+    (e.setRoleManagerWith r).1.store = e.store ∧ ∀ x ∈ gf, x ∈ (e.setRoleManagerWith r).1.gfuncs := by
+  unfold Enforcer.setRoleManagerWith
+  simp only []
+  rw [registerG_acc e.store.g e.gfuncs, hgf]
+  simp only [Option.map_some, hb, Bool.false_eq_true, if_false]
+  exact ⟨trivial, trivial, trivial, fun x hx => List.mem_append.mpr (Or.inr hx)⟩
+
+/-- … and the explicit rebuild that follows fills exactly that manager from the stored rules -/
+theorem build_after_manual_set (e : Enforcer) (hb : e.autoBuild = false) (r : RoleMgr String) (gf : List (String × Nat))
+    (hgf : registerG [] e.store.g = some gf) :
+    (e.setRoleManagerWith r).1.buildRoleLinks.1.rm = (Casbin.buildRoleLinks r e.store.g).1 := by
+  obtain ⟨h1, _, h3, _⟩ := setRoleManagerWith_manual e hb r gf hgf
+  unfold Enforcer.buildRoleLinks
+  simp only []
+  rw [h1, h3]
+
 /-! ### Non-vacuity and the regression witness for the repaired defect (F11) -/
 def aclStore : Store := ⟨[{ key := "p", tokens := ["p_sub"], arity := 0, policy := [] }], []⟩
 def rbacStore : Store := ⟨[{ key := "p", tokens := ["p_sub"], arity := 0, policy := [] }],
